@@ -344,4 +344,78 @@ example :
     Spec.boundOKIv 700 1 0 [(0, 914), (914, 930), (930, 938), (938, 958)] = false ∧
     Spec.boundOKIv 400 2 0 [(0, 4), (4, 10), (10, 37), (37, 43)] = false := by decide
 
+/-- **C18.5** `series_bound` — "however many events arrive", "all (I, B) values", at the task handler
+with the wait's context and the combining spelled out (`handleHookRunQ`): for every list of handler
+calls of a hook — each with ANY deadline on its wait (none, as in the code; or any bound, shorter or
+longer than the interval), each followed by the combining of a series of ANY length into the task —
+the hook processes started in any window `(t, t+T]` number at most `B + ⌈T/I⌉`. A wait that fails
+returns `Repeat`: no process, no token; a series of hundreds of binding contexts is one execution. -/
+theorem series_bound (l : Lim) (hinf : l.inf = false) (hI : 0 < l.I) (hB : 1 ≤ l.B)
+    (qs : List QTask) (hsorted : (qs.map (·.task.t)).Pairwise (· ≤ ·)) (h0 : ∀ u ∈ qs.map (·.task.t), 0 ≤ u)
+    (t T : Int) (hT : 0 ≤ T) :
+    (Spec.countIn (runQTasks l (init l) qs) t T : Int) ≤ l.B + ceilDiv T l.I := by
+  obtain ⟨ts, h1, h2⟩ := runQTasks_sublist l (init l) qs
+  have h3 := countIn_sublist h2 t T
+  have h4 := token_bucket_bound l hinf hI hB ts (hsorted.sublist h1) (fun u hu => h0 u (h1.subset hu)) t T hT
+  have : (Spec.countIn (runQTasks l (init l) qs) t T : Int)
+      ≤ (Spec.countIn (grants l (init l) ts) t T : Int) := by exact_mod_cast h3
+  omega
+
+/-- One token starts one process whatever the length of the combined series: the outcome of a handler
+call does not depend on the number of tasks merged into it, and it never starts more than one process. -/
+theorem series_length_irrelevant (l : Lim) (s : LState) (q : QTask) (n : Nat) :
+    handleHookRunQ l s { q with combined := n } = handleHookRunQ l s q ∧ (handleHookRunQ l s q).2.length ≤ 1 := by
+  refine ⟨rfl, ?_⟩
+  unfold handleHookRunQ
+  cases hw : waitCtx l s q.task.t q.deadline with
+  | mk s' g =>
+    cases g with
+    | none => simp
+    | some g =>
+      by_cases hc : q.task.kind = .synchronization ∧ q.task.runOnSync = false
+      · simp [hc]
+      · simp [hc, handleRunHookN, hookRun]
+
+/-- A failed wait — whatever the error — starts nothing and leaves the bucket as it was; and the wait
+the code performs (`context.Background()`: no deadline) never fails for a throttled hook with `B ≥ 1`,
+however long the interval. -/
+theorem failed_wait_starts_nothing (l : Lim) (s s' : LState) (q : QTask)
+    (h : waitCtx l s q.task.t q.deadline = (s', none)) : handleHookRunQ l s q = (s, []) := by
+  have hs := waitCtx_none_state l s s' q.task.t q.deadline h
+  subst hs
+  simp [handleHookRunQ, h]
+
+/-- The shape of the code the model's `deadline = none` was written against (closed world over pkg/
+and cmd/): `Hook.RateLimitWait` hands its context to `rate.Limiter.Wait` unchanged — its body is that
+one statement — and its only caller is `taskHandleHookRun`, with `context.Background()`. -/
+theorem wait_context_shape :
+    Facts.c18WaitBody = ["return h.RateLimiter.Wait(ctx)"] ∧
+    Facts.c18WaitCalls =
+      ["pkg/shell-operator/operator.go:taskHandleHookRun: err := taskHook.RateLimitWait(context.Background())"] := by
+  decide
+
+theorem background_wait_never_fails (l : Lim) (hB : 1 ≤ l.B) (s : LState) (t : Int) :
+    ∃ s' g, waitCtx l s t none = (s', some g) := by
+  by_cases hinf : l.inf = true
+  · exact ⟨s, t, by simp [waitCtx, reserve, hinf]⟩
+  · simp only [Bool.not_eq_true] at hinf
+    simp [waitCtx, reserve, hinf, hB]
+
+/-- Non-vacuity. `I = 10`, `B = 1`: a single event, then series of 450 and 320 events combined into the
+tasks at the head of the queue: three starts, 10 apart. `I = 60`, waits bounded by 10: after the burst
+every wait fails at once and nothing starts until a token is 10 away (the bucket loses nothing).
+And the traces the two fifth-wave variants produced are rejected by the interval oracle (`I = 1 s`,
+`B = 1`, in ms: one token paying for 4 and for 3 executions of a series passed on in batches;
+`I = 1 h`, `B = 1`, two queues: four executions within 72 ms after waits that failed). -/
+example :
+    (let l := createRateLimiter (some (10, 1))
+     runQTasks l (init l) [⟨⟨.schedule, 0, .ok, true⟩, none, 0⟩, ⟨⟨.schedule, 0, .ok, true⟩, none, 449⟩,
+       ⟨⟨.schedule, 12, .ok, true⟩, none, 319⟩] = [0, 10, 20]) ∧
+    (let l := createRateLimiter (some (60, 1))
+     runQTasks l (init l) [⟨⟨.schedule, 0, .ok, true⟩, some 10, 0⟩, ⟨⟨.schedule, 1, .ok, true⟩, some 10, 0⟩,
+       ⟨⟨.schedule, 2, .ok, true⟩, some 10, 7⟩, ⟨⟨.schedule, 55, .ok, true⟩, some 10, 0⟩] = [0, 60]) ∧
+    Spec.boundOKIv 1000 1 0 [(0, 6), (6, 1007), (1007, 1015), (1015, 1024), (1024, 1036), (1036, 2005),
+      (2005, 2015), (2015, 2029)] = false ∧
+    Spec.boundOKIv 3600000 1 50 [(0, 8), (21, 40), (8, 52), (40, 72)] = false := by decide
+
 end ShellOp.RateLimit.C18
